@@ -150,6 +150,19 @@ func (it *Interp) storeSet(v *StoreView, key, val *StrV) {
 	if val == nil || val.Nil {
 		it.tpanic("store.Set with nil value")
 	}
+	// the SDK's stores assert a non-empty key on Set (types.AssertValidKey, also in prefix stores, on the key they are given):
+	// decided here for structured keys and for keys that are a bare symbolic string (keys assembled from literals are not empty)
+	if isPlainB(key) {
+		if len(key.Bytes) == 0 {
+			it.tpanic("store.Set with an empty key (key is nil)")
+		}
+	} else if t := it.toA(key); t.op == "var" {
+		if _, lit := it.p.litVal[t.name]; !lit {
+			if it.p.branch(Eq(it.strLenTerm(t), BVu(64, 0))) {
+				it.tpanic("store.Set with an empty key (key is nil)")
+			}
+		}
+	}
 	k := it.fullKey(v, key)
 	v.base.log = append(v.base.log, storeWrite{key: k, val: val})
 	it.p.calllog = append(it.p.calllog, fmt.Sprintf("set %s %s", v.base.name, it.describe(k)))
